@@ -414,4 +414,79 @@ theorem entry_persists {a b} (h : Grows a b) (lab : Nat) (e : Int × Nat × Int)
     simp only at hs ⊢; omega
   · simp only at hs ⊢; omega
 
+/-! ### every registered line is a line of a registered code object with that bytecode -/
+
+/-- `(b, l)` registered ⇒ some code object in `code_hash_map` has bytecode `b` and an instruction on line `l` -/
+def Spanned (v : Core.ESt × List (Code × List (Blk × Int))) : Prop :=
+  ∀ k ∈ v.1.abs.regs, ∃ c ∈ v.2.map Prod.fst, c.blk = k.1 ∧ k.2 ∈ c.allLines
+
+theorem aappend_has_key (code : Code) (key : Blk × Int) (chm : List (Code × List (Blk × Int))) :
+    code ∈ (aappend code key chm).map Prod.fst := by
+  induction chm with
+  | nil => simp [aappend]
+  | cons q r ih =>
+    obtain ⟨k', v'⟩ := q
+    unfold aappend
+    by_cases hk : k' = code
+    · subst hk; simp
+    · simp only [hk, if_false, List.map_cons, List.mem_cons]; exact Or.inr ih
+
+theorem regLine_spanned (code : Code) (acc : Core.ESt × List (Code × List (Blk × Int))) (l : Int) (hl : l ∈ code.allLines)
+    (h : Spanned acc) : Spanned (regLine code acc l) := by
+  unfold regLine
+  split
+  · exact h
+  · intro k hk
+    simp only [abs_addRegs, Core.St.addRegs, List.mem_append, List.mem_singleton] at hk
+    rcases hk with hk | hk
+    · obtain ⟨c, hc, h1, h2⟩ := h k hk
+      exact ⟨c, aappend_keys _ _ _ c hc, h1, h2⟩
+    · subst hk
+      exact ⟨code, aappend_has_key _ _ _, rfl, hl⟩
+
+theorem regLines_spanned (code : Code) (ls : List Int) (acc : Core.ESt × List (Code × List (Blk × Int)))
+    (hl : ∀ l ∈ ls, l ∈ code.allLines) (h : Spanned acc) : Spanned (ls.foldl (regLine code) acc) := by
+  induction ls generalizing acc with
+  | nil => exact h
+  | cons l r ih =>
+    exact ih _ (fun x hx => hl x (List.mem_cons_of_mem _ hx)) (regLine_spanned code acc l (hl l (List.mem_cons_self ..)) h)
+
+theorem step_spanned (s : St) (op : Op) (h : Spanned s.view) : Spanned (s.step op).view := by
+  cases op with
+  | decl f code => exact h
+  | add f =>
+    simp only [St.step, St.addFunction]
+    split
+    · unfold St.addCode St.view; simp only
+      exact regLines_spanned _ _ _ (fun _ hx => hx) h
+    · exact h
+  | enableBC t =>
+    simp only [St.step, St.enableByCount, St.enable]
+    by_cases hc : s.count t = 0
+    · simp only [hc, if_true]; exact h
+    · simp only [hc, if_false]; exact h
+  | disableBC t =>
+    simp only [St.step, St.disableByCount]
+    split
+    · split
+      · intro k hk; simp only [St.view, St.disable, abs_clearThread] at hk ⊢; exact h k hk
+      · exact h
+    · exact h
+  | enable t => simp only [St.step, St.enable]; exact h
+  | disable t => intro k hk; simp only [St.step, St.view, St.disable, abs_clearThread] at hk ⊢; exact h k hk
+  | ev e =>
+    simp only [St.step, St.event]
+    split
+    · intro k hk; simp only [St.view, ecb_regs] at hk ⊢; exact h k hk
+    · exact h
+
+theorem run_spanned (ops : List Op) (s : St) (h : Spanned s.view) : Spanned (s.run ops).view := by
+  induction ops generalizing s with
+  | nil => exact h
+  | cons op r ih => exact ih _ (step_spanned s op h)
+
+theorem init_spanned : Spanned St.init.view := by
+  intro k hk
+  simp [St.view, St.init, abs_init, Core.St.init] at hk
+
 end LPVerif.Prof
